@@ -1,4 +1,5 @@
 \* C16 view machine over harness-supplied schemas (c16_feed.ndjson in the working directory).
+\* Measured: 401 schemas -> 802 states in ~6 s; 20001 schemas -> 40002 states in ~60 s.
 CONSTANTS
     Schemas <- FeedSchemas
     Ops <- FeedOps
